@@ -103,7 +103,7 @@ def main(ck):
     ck.cov["trusted_base"] = ["Coq 8.16.1 kernel + vm_compute (cases evaluation, Example)", "no axioms (Print Assumptions: closed)",
                               "Go harness cmd/c14, python driver props/C14/run.py"]
     ck.coq_audit(["C14"])
-    ok = ck.coq_build(["C14/Proofs.vo", "C14/Inv.vo", "C14/Corr.vo", "C14/XCorr.vo", "C14/XProofs.vo", "C14/XInv.vo", "C14/XNode.vo", "C14/XAgree.vo", "C14/XAgreeIx.vo", "C14/LK.vo"])
+    ok = ck.coq_build(["C14/Proofs.vo", "C14/Inv.vo", "C14/Corr.vo", "C14/XCorr.vo", "C14/XProofs.vo", "C14/XInv.vo", "C14/XNode.vo", "C14/XAgree.vo", "C14/XAgreeIx.vo", "C14/LK.vo", "C14/XGuard.vo", "C14/TTL.vo"])
     if ok:
         ck.coq_props(["C14/Props.v", "C14/Refuted.v"])
         if ck.tier == "thorough":
@@ -177,6 +177,7 @@ def main(ck):
     run_ix(ck, binp, ok)
     run_wa(ck, binp, ok)
     run_lk(ck, binp, ok)
+    run_ttl(ck, binp, ok)
     if ck.tier == "thorough" or os.environ.get("C14_BB"):
         run_bb(ck)
 
@@ -232,7 +233,7 @@ def run_ix(ck, binp, coq_ok):
     # permanent canary: copies of trace 0 with a corrupted first observation - no variant may agree with any of them
     NCAN = 10
     bad = json.loads(json.dumps(traces[0]))
-    bad["obs"][0]["nsh"] = list(bad["obs"][0]["nsh"]) + [987654321]
+    bad["obs"][0]["nsh"] = list(bad["obs"][0]["nsh"]) + [[987654321, 0]]
     files.append(("xcasescanary", xcases.xfile([bad] * NCAN)))
     res = ck.coq_eval_many(files) if coq_ok else []
     if res:
@@ -474,3 +475,60 @@ def run_lk(ck, binp, coq_ok):
     ck.cov["lk"] = {"traces": len(traces), "traces_with_physical_removal": sum(1 for t in traces if t["nontrivial"]),
                     "object_store_paths_removed": sum(t["paths"] for t in traces)}
     ck.cov["rule"] += " || lk: add/alter/recall/tick traces of the two-phase deletion; non-trivial = a pass physically removed a shard"
+
+
+# ---------------------------------------------------------------------------------------------
+# measurement TTL (engine.ExpiredShardsForMst / ExpiredIndexesForMst) and SchemaClean (MeasurementInfo.SchemaClean)
+
+def run_ttl(ck, binp, coq_ok):
+    import re
+    n = 300 if ck.tier == "quick" else 6000
+    rc, out = ck.run([binp, "ttl", str(n)], timeout=900)
+    cases = [json.loads(l) for l in out.splitlines() if l.startswith('{"mode":"ttl"')]
+    if rc != 0 or len(cases) != n:
+        ck.broken.append("harness c14 ttl failed rc=%d cases=%d: %s" % (rc, len(cases), out[-500:]))
+        return
+    tt = [c for c in cases if c["kind"] != "schema"]
+    sc = [c for c in cases if c["kind"] == "schema"]
+
+    def tt_coq(c):
+        return "(%s, %s, %s, %s, %s)" % (coq_z(c["rp"]), coq_z(c["ttl"]), coq_z(c["now"]),
+                                         coq_list(["(%s, %s, %s)" % tuple(coq_z(x) for x in it) for it in c["items"]]),
+                                         coq_list([coq_z(x) for x in c["got"]]))
+
+    def sc_coq(c):
+        return "(%s, %s, %s)" % (coq_list(["(%s, %s)" % (coq_z(it[0]), coq_z(it[1])) for it in c["items"]]), coq_z(c["pruned"]),
+                                 coq_list([coq_z(x) for x in c["got"]]))
+    # canaries: a corrupted copy of the first case of each kind, appended last
+    NCAN = 3
+    badt = json.loads(json.dumps(tt[0])); badt["got"] = sorted(badt["got"] + [987654])
+    bads = json.loads(json.dumps(sc[0])); bads["got"] = sorted(bads["got"] + [987654])
+    txt = ("From Coq Require Import ZArith List Bool. From OG Require Import C14.Model C14.TTL.\nImport ListNotations. Open Scope Z_scope.\n"
+           "Definition tcases : list ttlcase := [\n%s\n].\nDefinition scases : list sccase := [\n%s\n].\n"
+           "Definition T := Eval vm_compute in ttl_bad tcases.\nPrint T.\nDefinition S := Eval vm_compute in sc_bad scases.\nPrint S.\n"
+           % (";\n".join([tt_coq(c) for c in tt] + [tt_coq(badt)] * NCAN), ";\n".join([sc_coq(c) for c in sc] + [sc_coq(bads)] * NCAN)))
+    mism = []
+    if coq_ok:
+        rc2, o = ck.coq_eval("ttlcases", txt)
+        for name, real in (("T", tt), ("S", sc)):
+            m = re.search(name + r"\s*=\s*(\[.*?\]|nil)\s*:\s*list nat", o, re.S) if rc2 == 0 else None
+            if not m:
+                ck.broken.append("model evaluation (ttl/%s) failed or unreadable: %s" % (name, o[-300:]))
+                continue
+            got = [int(x) for x in re.findall(r"\d+", re.sub(r"%\w+", "", m.group(1)))]
+            if [x for x in got if x >= len(real)] != list(range(len(real), len(real) + NCAN)):
+                ck.broken.append("C14 canary: a corrupted case was not reported by the model evaluation (ttl/%s)" % name)
+            mism += [(name, x) for x in got if x < len(real)]
+    oracle_fail = [(i, c) for i, c in enumerate(cases) if c["oracle"]]
+    for i, c in oracle_fail[:3]:
+        ck.violation({"kind": "direct-oracle", "mode": "ttl", "what": c["oracle"], "case": i, "input": c})
+    if mism and not oracle_fail:
+        name, i = mism[0]
+        c = (tt if name == "T" else sc)[i]
+        ck.broken.append("correspondence C14 (%s) model/implementation differs" % ("measurement TTL" if name == "T" else "schema clean"))
+        ck.nofail_detail = {"kind": "correspondence-ttl", "input": c}
+    ck.cov["evaluations"] += len(cases)
+    ck.cov["distinct_nontrivial"] += len({json.dumps([c["kind"], c["items"], c["ttl"], c["now"], c["pruned"]]) for c in cases if c["got"]})
+    ck.cov["traces_validated_against_impl"] += len(cases) - len(mism) if coq_ok else 0
+    ck.cov["ttl"] = {"mst_ttl_cases": len(tt), "schema_clean_cases": len(sc)}
+    ck.cov["rule"] += " || ttl: measurement-TTL decisions and SchemaClean decisions at their boundaries; non-trivial = something reported / left"
